@@ -758,8 +758,11 @@ func (i *instance) isCandidate(c *ECChain) bool {
 
 func (i *instance) addCandidatePrefixes(c *ECChain) bool {
 	var addedAny bool
-	for l := c.Len() - 1; l > 0 && !addedAny; l-- {
-		addedAny = i.addCandidate(c.Prefix(l))
+	// Every prefix (longer than the base, which is always a candidate) of a
+	// quorum-backed chain is quorum-backed too and must become a candidate, not
+	// only the first one that was not known yet.
+	for l := c.Len() - 1; l > 0; l-- {
+		addedAny = i.addCandidate(c.Prefix(l)) || addedAny
 	}
 	return addedAny
 }
